@@ -203,6 +203,10 @@ def main_wrapper(fn, pid: str):
     chk = Check(pid, tier)
     chk.replay_mode = replay is not None
     chk.replay_path = replay
+    if replay is None:
+        # replay files belong to the run that wrote them: a new run starts without the ones of earlier runs
+        for old in (REPLAYS / pid).glob("*.json"):
+            old.unlink()
     try:
         fn(chk, replay)
     except MachineryFailure as ex:
